@@ -5,7 +5,7 @@
 From Coq Require Import List NArith ZArith Bool Lia.
 Import ListNotations.
 From LV Require Import Model.Base Model.Template Model.Eval Model.Derived Model.EvalRun
-  Proofs.BaseProofs Proofs.EvalProofs.
+  Proofs.BaseProofs Proofs.FrameProofs Proofs.EvalProofs.
 
 (** * Part A — the specification of substitution (pure; no interpreter involved) *)
 
@@ -1303,4 +1303,413 @@ Proof.
   intros Hf Hn. unfold flat_at. apply forallb_forall. intros k Hk.
   destruct (lookup k (JObj o)) as [v| |] eqn:E; try reflexivity.
   apply (flat_lookup o k v Hf); [|exact E]. intros ->. now apply Hn.
+Qed.
+
+(** * Part D — what evaluate's own event log records, and "the reported keys determine the text" *)
+
+(** the result of Template.evaluate as a function of what [resolve] returned *)
+Definition template_result (r : rres) : res value :=
+  match r with
+  | ROk j => match to_str j with Some t => Ok (VJ (JStr t)) | None => Err CUnmodelled true end
+  | RMissing k => Err (CKey k) true
+  | RTypeErr => Err CType true
+  | RFuel => Err CFuel true
+  | RUnmodelled => Err CUnmodelled true
+  end.
+
+(** … and of Option.evaluate (present key, no domain): the resolved value ITSELF *)
+Definition option_result (r : rres) : res value :=
+  match r with
+  | ROk j => Ok (VJ j)
+  | RMissing k => Err (CKey k) true
+  | RTypeErr => Err CType true
+  | RFuel => Err CFuel true
+  | RUnmodelled => Err CUnmodelled true
+  end.
+
+Definition present (o : dict) (k : key) : bool :=
+  match lookup k (JObj o) with Found _ => true | _ => false end.
+
+Definition not_par (k : key) : bool := negb (is_par_key k).
+
+Section Determine.
+  Variable S : Type.
+  Variable mem_find : N -> fp -> S -> option value.
+  Variable mem_store : N -> fp -> value -> S -> S.
+  Variable cfg : config.
+  Variable ucall : N -> list value -> cres.
+  Variable rfuel : nat.
+  Variable site_ok : expr -> dict -> bool.
+
+  Notation eval := (eval S mem_find mem_store cfg ucall rfuel site_ok).
+  Notation keys := (keys S mem_find mem_store cfg ucall rfuel site_ok).
+  Notation explain := (explain S mem_find mem_store cfg ucall rfuel site_ok).
+  Notation M := (M S).
+
+  Lemma emit_reads_log ks o st :
+    emit_reads S ks o st = (Ok tt, st, map (fun k => EvRead k (present o k)) ks).
+  Proof.
+    unfold emit_reads. induction ks as [|k ks IH]; [reflexivity|].
+    rewrite iterM_cons. unfold bind. unfold emit at 1. cbv beta iota. rewrite IH. reflexivity.
+  Qed.
+
+  Lemma In_read_map o ks k p : In (EvRead k p) (map (fun k => EvRead k (present o k)) ks) -> In k ks.
+  Proof. intros H. apply in_map_iff in H as [k0 [E H]]. inversion E; subst. exact H. Qed.
+
+  (** Template.evaluate, whole observation: the result is [template_result] of the resolution
+      against the options mixed with the parameter values, and AFTER the parameters' own events
+      the log holds exactly one read per option key the resolution consulted *)
+  Lemma eval_template_log s ps o st o' st1 l1 :
+    template_options S (fun x => eval x o) ps o st = (Ok o', st1, l1) ->
+    eval (ETemplate s ps) o st =
+      (template_result (resolve rfuel o' (JStr s)), st1,
+       l1 ++ map (fun k => EvRead k (present o k)) (filter not_par (resolve_reads rfuel o' (JStr s)))).
+  Proof.
+    intros Ho. rewrite eval_template_unfold. unfold wrap_eval, bind. rewrite Ho.
+    fold not_par. rewrite emit_reads_log.
+    destruct (resolve rfuel o' (JStr s)) as [j|k| | |]; cbn [of_rres template_result];
+      unfold ret, fail; rewrite ?app_nil_r; try reflexivity.
+    destruct (to_str j); unfold ret, fail; rewrite ?app_nil_r; reflexivity.
+  Qed.
+
+  Lemma eval_template_nil_log s o st :
+    eval (ETemplate s []) o st =
+      (template_result (resolve rfuel o (JStr s)), st,
+       map (fun k => EvRead k (present o k)) (filter not_par (resolve_reads rfuel o (JStr s)))).
+  Proof. exact (eval_template_log s [] o st o st [] (template_options_nil S _ o st)). Qed.
+
+  (** SENTENCE 3 on evaluate's own log: every option key Template.evaluate records as read while
+      substituting is reported by keys() / by explain() *)
+  Theorem template_keys_cover_log s ps o st o' st1 l1 st2 ks st3 lg :
+    template_options S (fun x => eval x o) ps o st = (Ok o', st1, l1) ->
+    keys (ETemplate s ps) o st2 = (Ok ks, st3, lg) ->
+    flat_at o ks = true -> forallb opt_key ks = true -> params_plain o' s = true ->
+    exists r l2, eval (ETemplate s ps) o st = (r, st1, l1 ++ l2) /\
+                 forall k p, In (EvRead k p) l2 -> In k ks.
+  Proof.
+    intros Ho Hk Hfl Hop Hpp. rewrite (eval_template_log s ps o st o' st1 l1 Ho).
+    do 2 eexists. split; [reflexivity|]. intros k p Hin. apply In_read_map in Hin.
+    exact (template_keys_cover_emitted S mem_find mem_store cfg ucall rfuel site_ok
+             s ps o st o' st1 l1 st2 ks st3 lg Ho Hk Hfl Hop Hpp k Hin).
+  Qed.
+
+  Theorem template_explain_cover_log s ps o st o' st1 l1 st2 ks st3 lg :
+    template_options S (fun x => eval x o) ps o st = (Ok o', st1, l1) ->
+    explain (ETemplate s ps) o st2 = (Ok ks, st3, lg) ->
+    flat_at o ks = true -> forallb opt_key ks = true -> params_plain o' s = true ->
+    exists r l2, eval (ETemplate s ps) o st = (r, st1, l1 ++ l2) /\
+                 forall k p, In (EvRead k p) l2 -> In k ks.
+  Proof.
+    intros Ho Hk Hfl Hop Hpp. rewrite (eval_template_log s ps o st o' st1 l1 Ho).
+    do 2 eexists. split; [reflexivity|]. intros k p Hin. apply In_read_map in Hin.
+    exact (template_explain_cover_emitted S mem_find mem_store cfg ucall rfuel site_ok
+             s ps o st o' st1 l1 st2 ks st3 lg Ho Hk Hfl Hop Hpp k Hin).
+  Qed.
+
+  (** a template without parameter tokens: EVERY key its resolution consults is reported *)
+  Lemma template_refs_cover_all o o' s strict st b st' lg :
+    pars s = [] ->
+    unionM S (fun k => ref_keys S rfuel strict o k) (refs s) st = (Ok b, st', lg) ->
+    (forall k', In k' b -> lookup k' (JObj o') = lookup k' (JObj o)) ->
+    flat_at o b = true ->
+    forall g k, In k (resolve_reads g o' (JStr s)) -> In k b.
+  Proof.
+    intros Hnp Hu Hag Hfl.
+    assert (Hsub : forall k1, In k1 (refs s) ->
+              In k1 b /\ forall g v1, lookup k1 (JObj o') = Found v1 -> incl (resolve_reads g o' v1) b).
+    { intros k1 Hk1. destruct (unionM_ok S _ _ _ _ _ _ Hu k1 Hk1) as (sa & ks1 & sb & la & Hr & Hi).
+      destruct (ref_keys_cover S o o' rfuel strict k1 sa ks1 sb la Hr) as [Hin Hcov].
+      - intros k' Hk'. apply Hag. now apply Hi.
+      - now apply (flat_at_incl o b).
+      - split; [now apply Hi|]. intros g v1 Hv1 x Hx. apply Hi. exact (Hcov g v1 Hv1 x Hx). }
+    assert (Hcase : forall t k1, In t s -> tok_key t = Some k1 -> In k1 (refs s)).
+    { intros t k1 Ht Hk1. destruct (tok_key_cases s t k1 Ht Hk1) as [Hr|[p [Hp _]]]; [exact Hr|].
+      rewrite Hnp in Hp. destruct Hp. }
+    intros g k Hk. destruct g as [|g]; [destruct Hk|].
+    destruct (single s) as [k1|] eqn:Es.
+    - rewrite (reads_single g o' s k1 Es) in Hk. destruct (single_inv _ _ Es) as [t [E Ht]].
+      assert (Hin : In t s) by (rewrite E; now left).
+      destruct (Hsub k1 (Hcase t k1 Hin Ht)) as [Hi Hcov]. destruct Hk as [<-|Hk]; [exact Hi|].
+      destruct (lookup k1 (JObj o')) as [v1| |] eqn:E1; try destruct Hk. exact (Hcov g v1 eq_refl k Hk).
+    - rewrite (reads_multi g o' s Es) in Hk. destruct (has_templ s); [|destruct Hk].
+      apply in_app_or in Hk as [Hk|Hk].
+      + apply tkeys_In in Hk as [t [Ht Hkt]]. exact (proj1 (Hsub k (Hcase t k Ht Hkt))).
+      + destruct (expand o' s) as [s1|] eqn:Ee; [|destruct Hk].
+        destruct (reads_expand o' g s s1 k Ee Hk) as (t & k1 & v1 & Ht & Hkt & Hl & Hr).
+        exact (proj2 (Hsub k1 (Hcase t k1 Ht Hkt)) g v1 Hl k Hr).
+  Qed.
+
+  Lemma keys_template_nil s o st :
+    keys (ETemplate s []) o st =
+      bind S (unionM S (fun k => ref_keys S rfuel true o k) (refs s)) (fun b => ret S b) st.
+  Proof.
+    change (keys (ETemplate s []) o st) with
+      (bind S (ret S []) (fun a => bind S (unionM S (fun k => ref_keys S rfuel true o k) (refs s))
+                                     (fun b => ret S (a ++ b))) st).
+    unfold bind at 1. unfold ret at 1. cbn [app].
+    destruct (bind S _ _ st) as [[r s'] l]. reflexivity.
+  Qed.
+  Lemma explain_template_nil s o st :
+    explain (ETemplate s []) o st =
+      bind S (unionM S (fun k => ref_keys S rfuel false o k) (refs s)) (fun b => ret S b) st.
+  Proof.
+    change (explain (ETemplate s []) o st) with
+      (bind S (ret S []) (fun a => bind S (unionM S (fun k => ref_keys S rfuel false o k) (refs s))
+                                     (fun b => ret S (a ++ b))) st).
+    unfold bind at 1. unfold ret at 1. cbn [app].
+    destruct (bind S _ _ st) as [[r s'] l]. reflexivity.
+  Qed.
+
+  Lemma template_nil_reads_in strict s o st ks st' lg :
+    pars s = [] ->
+    bind S (unionM S (fun k => ref_keys S rfuel strict o k) (refs s)) (fun b => ret S b) st = (Ok ks, st', lg) ->
+    flat_at o ks = true ->
+    forall g, incl (resolve_reads g o (JStr s)) ks.
+  Proof.
+    intros Hnp H Hfl g k Hk.
+    apply bind_ok in H as (b & s2 & l3 & l4 & Hu & H & _). unfold ret in H. inversion H; subst b.
+    exact (template_refs_cover_all o o s strict st ks s2 l3 Hnp Hu (fun _ _ => eq_refl) Hfl g k Hk).
+  Qed.
+
+  (** SENTENCE 3, semantically: a dictionary that agrees with [o] on the keys keys() (explain())
+      reports gives the template the SAME text (or the same failure), whatever else differs —
+      so no key outside the reported set is read by the substitution *)
+  Theorem template_keys_determine_text s o o' st ks st' lg :
+    pars s = [] ->
+    keys (ETemplate s []) o st = (Ok ks, st', lg) -> flat_at o ks = true ->
+    (forall k, In k ks -> lookup k (JObj o') = lookup k (JObj o)) ->
+    forall st2, fst (fst (eval (ETemplate s []) o' st2)) = fst (fst (eval (ETemplate s []) o st2)).
+  Proof.
+    intros Hnp H Hfl Hag st2. rewrite keys_template_nil in H.
+    pose proof (template_nil_reads_in true s o st ks st' lg Hnp H Hfl rfuel) as Hin.
+    destruct (resolve_frame o o' rfuel (JStr s)) as [_ E]; [intros k Hk; apply Hag, Hin, Hk|].
+    rewrite !eval_template_nil_log. cbn [fst]. now rewrite E.
+  Qed.
+
+  Theorem template_explain_determine_text s o o' st ks st' lg :
+    pars s = [] ->
+    explain (ETemplate s []) o st = (Ok ks, st', lg) -> flat_at o ks = true ->
+    (forall k, In k ks -> lookup k (JObj o') = lookup k (JObj o)) ->
+    forall st2, fst (fst (eval (ETemplate s []) o' st2)) = fst (fst (eval (ETemplate s []) o st2)).
+  Proof.
+    intros Hnp H Hfl Hag st2. rewrite explain_template_nil in H.
+    pose proof (template_nil_reads_in false s o st ks st' lg Hnp H Hfl rfuel) as Hin.
+    destruct (resolve_frame o o' rfuel (JStr s)) as [_ E]; [intros k Hk; apply Hag, Hin, Hk|].
+    rewrite !eval_template_nil_log. cbn [fst]. now rewrite E.
+  Qed.
+
+  (** Option.evaluate of a present key without a domain *)
+  Lemma eval_option_found_log k dflt o raw st :
+    lookup k (JObj o) = Found raw ->
+    eval (EOption k dflt None) o st =
+      (option_result (resolve rfuel o raw), st,
+       EvRead k true :: map (fun k => EvRead k (present o k)) (resolve_reads rfuel o raw)).
+  Proof.
+    intros Hl. rewrite eval_option_unfold. unfold wrap_eval, option_eval. unfold bind at 1 2.
+    rewrite (rd_eq S), Hl. unfold bind. rewrite emit_reads_log. cbn [lres_found].
+    destruct (resolve rfuel o raw) as [j|k'| | |]; cbn [of_rres option_result]; unfold ret, fail;
+      cbn [app]; rewrite ?app_nil_r; reflexivity.
+  Qed.
+
+  (** an Option whose VALUE is templated (to any depth of the reference chain): the keys keys()
+      / explain() report determine its value *)
+  Theorem option_keys_determine_value k dflt o o' raw st ks st' lg :
+    lookup k (JObj o) = Found raw ->
+    keys (EOption k dflt None) o st = (Ok ks, st', lg) -> flat_at o ks = true ->
+    (forall k', In k' ks -> lookup k' (JObj o') = lookup k' (JObj o)) ->
+    forall st2, fst (fst (eval (EOption k dflt None) o' st2)) = fst (fst (eval (EOption k dflt None) o st2)).
+  Proof.
+    intros Hl H Hfl Hag st2.
+    destruct (option_keys_cover_reads S mem_find mem_store cfg ucall rfuel site_ok
+                k dflt None o raw st ks st' lg Hl H Hfl) as [Hin Hcov].
+    assert (Hl' : lookup k (JObj o') = Found raw) by (rewrite (Hag k Hin); exact Hl).
+    destruct (resolve_frame o o' rfuel raw) as [_ E]; [intros k' Hk'; apply Hag, (Hcov rfuel), Hk'|].
+    rewrite (eval_option_found_log k dflt o raw st2 Hl), (eval_option_found_log k dflt o' raw st2 Hl').
+    cbn [fst]. now rewrite E.
+  Qed.
+
+  Theorem option_explain_determine_value k dflt o o' raw st ks st' lg :
+    lookup k (JObj o) = Found raw ->
+    explain (EOption k dflt None) o st = (Ok ks, st', lg) -> flat_at o ks = true ->
+    (forall k', In k' ks -> lookup k' (JObj o') = lookup k' (JObj o)) ->
+    forall st2, fst (fst (eval (EOption k dflt None) o' st2)) = fst (fst (eval (EOption k dflt None) o st2)).
+  Proof.
+    intros Hl H Hfl Hag st2.
+    destruct (option_explain_cover_reads S mem_find mem_store cfg ucall rfuel site_ok
+                k dflt None o raw st ks st' lg Hl H Hfl) as [Hin Hcov].
+    assert (Hl' : lookup k (JObj o') = Found raw) by (rewrite (Hag k Hin); exact Hl).
+    destruct (resolve_frame o o' rfuel raw) as [_ E]; [intros k' Hk'; apply Hag, (Hcov rfuel), Hk'|].
+    rewrite (eval_option_found_log k dflt o raw st2 Hl), (eval_option_found_log k dflt o' raw st2 Hl').
+    cbn [fst]. now rewrite E.
+  Qed.
+
+  (** … and every read evaluate records for such an Option is a reported key *)
+  Theorem option_keys_cover_log k dflt o raw st ks st' lg st2 :
+    lookup k (JObj o) = Found raw ->
+    keys (EOption k dflt None) o st = (Ok ks, st', lg) -> flat_at o ks = true ->
+    exists r l, eval (EOption k dflt None) o st2 = (r, st2, l) /\ forall k' p, In (EvRead k' p) l -> In k' ks.
+  Proof.
+    intros Hl H Hfl.
+    destruct (option_keys_cover_reads S mem_find mem_store cfg ucall rfuel site_ok
+                k dflt None o raw st ks st' lg Hl H Hfl) as [Hin Hcov].
+    rewrite (eval_option_found_log k dflt o raw st2 Hl). do 2 eexists. split; [reflexivity|].
+    intros k' p [E|Hk']; [inversion E; subst; exact Hin|].
+    apply In_read_map in Hk'. exact (Hcov rfuel k' Hk').
+  Qed.
+
+  (** an Option whose DEFAULT is templated, key absent: its keys() are the default's, and they
+      determine the value among the dictionaries in which the key stays absent *)
+  Theorem option_default_keys_determine_value k s o o' st ks st' lg :
+    pars s = [] ->
+    lookup k (JObj o) = Absent -> lookup k (JObj o') = Absent ->
+    keys (EOption k (Some (ETemplate s [])) None) o st = (Ok ks, st', lg) -> flat_at o ks = true ->
+    (forall k', In k' ks -> lookup k' (JObj o') = lookup k' (JObj o)) ->
+    forall st2, fst (fst (eval (EOption k (Some (ETemplate s [])) None) o' st2)) =
+                fst (fst (eval (EOption k (Some (ETemplate s [])) None) o st2)).
+  Proof.
+    intros Hnp Hl Hl' H Hfl Hag st2.
+    rewrite (keys_option_absent S mem_find mem_store cfg ucall rfuel site_ok k _ None o st Hl) in H.
+    destruct (keys (ETemplate s []) o st) as [[rk sk] lk] eqn:Ek. inversion H; subst rk sk lg.
+    pose proof (template_keys_determine_text s o o' st ks st' lk Hnp Ek Hfl Hag st2) as E.
+    rewrite (eval_option_absent_default S mem_find mem_store cfg ucall rfuel site_ok k _ o st2 Hl).
+    rewrite (eval_option_absent_default S mem_find mem_store cfg ucall rfuel site_ok k _ o' st2 Hl').
+    destruct (eval (ETemplate s []) o st2) as [[r1 s1] l1]. destruct (eval (ETemplate s []) o' st2) as [[r2 s2] l2].
+    exact E.
+  Qed.
+
+  Theorem option_default_explain_determine_value k s o o' st ks st' lg :
+    pars s = [] ->
+    lookup k (JObj o) = Absent -> lookup k (JObj o') = Absent ->
+    explain (EOption k (Some (ETemplate s [])) None) o st = (Ok ks, st', lg) -> flat_at o ks = true ->
+    (forall k', In k' ks -> lookup k' (JObj o') = lookup k' (JObj o)) ->
+    forall st2, fst (fst (eval (EOption k (Some (ETemplate s [])) None) o' st2)) =
+                fst (fst (eval (EOption k (Some (ETemplate s [])) None) o st2)).
+  Proof.
+    intros Hnp Hl Hl' H Hfl Hag st2.
+    rewrite (explain_option_absent S mem_find mem_store cfg ucall rfuel site_ok k _ None o st Hl) in H.
+    destruct (explain (ETemplate s []) o st) as [[rk sk] lk] eqn:Ek. inversion H; subst rk sk lg.
+    pose proof (template_explain_determine_text s o o' st ks st' lk Hnp Ek Hfl Hag st2) as E.
+    rewrite (eval_option_absent_default S mem_find mem_store cfg ucall rfuel site_ok k _ o st2 Hl).
+    rewrite (eval_option_absent_default S mem_find mem_store cfg ucall rfuel site_ok k _ o' st2 Hl').
+    destruct (eval (ETemplate s []) o st2) as [[r1 s1] l1]. destruct (eval (ETemplate s []) o' st2) as [[r2 s2] l2].
+    exact E.
+  Qed.
+
+  (** SENTENCE 1 without parameters, in one statement *)
+  Theorem eval_template_nil_spec s o st d e :
+    flatten d o s = Some e -> rfuel > d ->
+    exists l, eval (ETemplate s []) o st = (Ok (VJ (JStr (unescape e))), st, l) /\
+              forall k p, In (EvRead k p) l -> In k (resolve_reads rfuel o (JStr s)).
+  Proof.
+    intros Hf Hd. destruct (flatten_resolve d o s e Hf rfuel Hd) as [r [Hr Ht]].
+    rewrite eval_template_nil_log, Hr. cbn [template_result]. rewrite Ht.
+    eexists. split; [reflexivity|]. intros k p Hin. apply In_read_map in Hin.
+    now apply filter_In in Hin as [Hin _].
+  Qed.
+End Determine.
+
+(** ** one level: when every referenced value is atomic, the text is the one-pass substitution *)
+Lemma atomic_to_str v sv : atomic v = true -> to_str v = Some sv -> has_templ sv = false.
+Proof.
+  intros Ha H. destruct v as [| | | |s| |]; try discriminate.
+  4: { cbn in H. apply some_inj in H. subst sv. now apply negb_true_iff in Ha. }
+  all: match type of H with to_str ?v = _ =>
+         destruct (to_str_nonstr 0 [] v sv ltac:(intros s0 E0; discriminate E0) H) as [[cs ->] _] end;
+       apply has_templ_lit.
+Qed.
+
+Lemma closed_flatten o s : forall e,
+  closed o s = true -> expand o s = Some e -> flatten 1 o s = Some e.
+Proof.
+  induction s as [|t s IH]; intros e Hc H.
+  - exact H.
+  - unfold expand in H. cbn [cat_map] in H. cbn [closed forallb] in Hc. apply andb_prop in Hc as [Ht Hc].
+    destruct (piece o t) as [a|] eqn:Ea; [|discriminate].
+    destruct (cat_map (piece o) s) as [b|] eqn:Eb; [|discriminate].
+    apply some_inj in H. subst e.
+    change (flatten 1 o (t :: s)) with
+      (match deep_piece (flatten 0 o) o t, flatten 1 o s with
+       | Some x, Some y => Some (x ++ y) | _, _ => None end).
+    rewrite (IH b Hc Eb).
+    unfold piece in Ea. unfold deep_piece. destruct (tok_key t) as [k|].
+    + destruct (lookup k (JObj o)) as [v| |]; try discriminate. rewrite Ea.
+      cbn [flatten]. now rewrite (atomic_to_str v a Ht Ea).
+    + apply some_inj in Ea. subst a. reflexivity.
+Qed.
+
+(** * the two recorded defects, as refutations of the unconditional statements *)
+Definition u_none : N -> list value -> cres := fun _ _ => CRaise 0.
+Definition kA : key := [SName 10].
+Definition kB : key := [SName 11].
+
+(** D1: a templated string inside a container value.  keys() of Option('A') is {A} under both
+    dictionaries, they agree on A, and the values differ: [1] against [2]. *)
+Definition d1_opts (b : Z) : dict := [(SName 10, JList [JStr [TRef kB]]); (SName 11, JInt b)].
+
+Theorem D1_option_keys_do_not_determine_value :
+  exists k o o' ks,
+    fst (keys_nc u_none 40 (EOption k None None) o) = Ok ks /\
+    (forall k', In k' ks -> lookup k' (JObj o') = lookup k' (JObj o)) /\
+    fst (eval_nc u_none 40 (EOption k None None) o') <> fst (eval_nc u_none 40 (EOption k None None) o).
+Proof.
+  exists kA, (d1_opts 1), (d1_opts 2), [kA]. split; [reflexivity|]. split.
+  - intros k' [<-|[]]. reflexivity.
+  - vm_compute. discriminate.
+Qed.
+
+(** … and the same dictionaries make evaluate record a read of B that keys() does not list *)
+Theorem D1_option_reads_unreported :
+  exists k o ks,
+    fst (keys_nc u_none 40 (EOption k None None) o) = Ok ks /\
+    In (EvRead kB true) (snd (eval_nc u_none 40 (EOption k None None) o)) /\ ~ In kB ks.
+Proof.
+  exists kA, (d1_opts 1), [kA]. split; [reflexivity|]. split.
+  - vm_compute. right. now left.
+  - intros [E|[]]. discriminate E.
+Qed.
+
+(** D13: a parameter whose string form contains braces is re-scanned.  Template('{:p1:}',
+    p1='{B}'): keys() and explain() are empty, validate passes under the empty dictionary,
+    evaluate reads B (text "1" / "2", KeyNotFoundError(B) under {}). *)
+Definition d13_t : expr := ETemplate [TPar 1] [(1%N, EValue (VJ (JStr [TRef kB])))].
+
+Theorem D13_template_keys_do_not_determine_text :
+  fst (keys_nc u_none 40 d13_t [(SName 11, JInt 1)]) = Ok [] /\
+  fst (explain_nc u_none 40 d13_t []) = Ok [] /\
+  fst (validate_nc u_none 40 d13_t []) = Ok tt /\
+  fst (eval_nc u_none 40 d13_t []) = Err (CKey kB) true /\
+  fst (eval_nc u_none 40 d13_t [(SName 11, JInt 1)]) = Ok (VJ (JStr (lit [49%N]))) /\
+  fst (eval_nc u_none 40 d13_t [(SName 11, JInt 2)]) = Ok (VJ (JStr (lit [50%N]))).
+Proof. repeat split; reflexivity. Qed.
+
+Lemma eval_template_one_level S mf ms cfg u rfuel so s o st e :
+  closed o s = true -> expand o s = Some e -> rfuel > 1 ->
+  exists l, eval S mf ms cfg u rfuel so (ETemplate s []) o st = (Ok (VJ (JStr (unescape e))), st, l) /\
+            forall k p, In (EvRead k p) l -> In k (resolve_reads rfuel o (JStr s)).
+Proof.
+  intros Hc He Hf.
+  exact (eval_template_nil_spec S mf ms cfg u rfuel so s o st 1 e (closed_flatten o s e Hc He) Hf).
+Qed.
+
+(** * concrete instances (non-vacuity of the hypotheses used above) *)
+Definition kC : key := [SName 12].
+Definition kSX : key := [SName 20; SName 21].
+(** {'A': '{B}/{S.X}', 'B': 'x{C}', 'C': '{S.X}', 'S': {'X': 5}, 'P': 7} *)
+Definition ex_o : dict :=
+  [(SName 10, JStr [TRef kB; TLit 47; TRef kSX]); (SName 11, JStr [TLit 120; TRef kC]);
+   (SName 12, JStr [TRef kSX]); (SName 20, JObj [(SName 21, JInt 5)]); (SName 13, JInt 7)].
+(** '{A}-\{x\}' *)
+Definition ex_s : str := [TRef kA; TLit 45; TEscL; TLit 120; TEscR].
+(** Template('v={:p1:}/{C}', p1=Option('P')) *)
+Definition ex_p : expr :=
+  ETemplate [TLit 118; TLit 61; TPar 1; TLit 47; TRef kC] [(1%N, EOption [SName 13] None None)].
+(** the same dictionary with B := 1 and without C, S *)
+Definition ex_o_missing : dict := [(SName 10, JStr [TRef kB; TLit 47; TRef kSX]); (SName 11, JInt 1)].
+
+Lemma ex_misses : misses ex_o_missing 1 ex_s kSX.
+Proof.
+  apply (M_round ex_o_missing 0 ex_s [TRef kB; TLit 47; TRef kSX; TLit 45; TEscL; TLit 120; TEscR] kSX);
+    try reflexivity.
+  exact (M_here ex_o_missing 0 [TRef kB; TLit 47] (TRef kSX) [TLit 45; TEscL; TLit 120; TEscR] kSX
+           [TLit 49; TLit 47] eq_refl eq_refl eq_refl).
 Qed.
